@@ -46,6 +46,9 @@ package container
 //@   ensures result != nil ==> P.st == 9
 //@   ensures old(P.st) == 9 ==> result != nil
 
+// A-CONF (rely on the host, listed as an assumption): a configuration command reaches an init that has not
+// mounted anything yet, and its mount flags carry no MS_REMOUNT (the host builder never sets it).
+//@ macro conf_ok(cc) = !M.pivoted && !M.detached && M.nm == 0 && M.nrm == 0 && M.nmask == 0 && len(cc.Mounts) < 1048576 && len(cc.MaskPaths) < 1048576 && forall k int :: 0 <= k && k < len(cc.Mounts) ==> cc.Mounts[k].Flags & 32 == 0
 //@ func container.(*containerServer).recvCmd props C10
 //@   arith int
 //@   requires recv_due(P.st)
@@ -56,6 +59,7 @@ package container
 //@   abstracts result.2 == nil && old(P.st) == 3 ==> int(result.0.Cmd) == 6 || int(result.0.Cmd) == 7
 //@   abstracts result.2 == nil && old(P.st) == 6 ==> int(result.0.Cmd) == 7
 //@   abstracts result.2 == nil && result.0.ExecCmd != nil && len(result.0.ExecCmd.Argv) > 0 ==> fresh(result.0.ExecCmd.Argv)
+//@   abstracts result.2 == nil && int(result.0.Cmd) == 8 && result.0.ConfCmd != nil ==> conf_ok(result.0.ConfCmd.Conf)
 //@   abstracts result.2 == nil && int(result.0.Cmd) == 5 ==> (result.0.ExecCmd != nil && len(result.1.Fds) < 1048576 && (result.0.ExecCmd.Seccomp == nil || (len(result.0.ExecCmd.Seccomp) >= 1 && len(result.0.ExecCmd.Seccomp) <= 65535)) && forall j int :: soff(result.1.Fds) <= j && j < soff(result.1.Fds) + len(result.1.Fds) ==> 0 <= cell(result.1.Fds, j) && cell(result.1.Fds, j) < 2147483648)
 
 // kill arrives on the command channel while the program runs
@@ -80,6 +84,7 @@ package container
 //@ func container.(*containerServer).handleCmd props C10
 //@   arith int
 //@   requires P.st == recv_next(0, int(cmd.Cmd)) && WA.tokens == 0
+//@   requires int(cmd.Cmd) == 8 && cmd.ConfCmd != nil ==> conf_ok(cmd.ConfCmd.Conf)
 //@   requires int(cmd.Cmd) == 5 ==> (cmd.ExecCmd != nil && len(msg.Fds) < 1048576 && (cmd.ExecCmd.Seccomp == nil || (len(cmd.ExecCmd.Seccomp) >= 1 && len(cmd.ExecCmd.Seccomp) <= 65535)) && forall j int :: soff(msg.Fds) <= j && j < soff(msg.Fds) + len(msg.Fds) ==> 0 <= cell(msg.Fds, j) && cell(msg.Fds, j) < 2147483648)
 //@   assigns P.st, S._all, FD._all, W._all, K._all, O._all, R._all, U._all, WA._all, FC._all, L._all
 //@   ensures result == nil ==> P.st == 0 || P.st == 9
@@ -94,10 +99,20 @@ package container
 //@   assigns P.st, FC._all
 //@   ensures result == nil ==> P.st == 0 || P.st == 9
 
-//@ func container.(*containerServer).handleConf props C10
+// C05: a configuration command is answered with success only after the whole file-system sequence ran on
+// exactly the configuration that arrived: pivoted into its root, old root detached, root sealed read-only
+//@ func container.(*containerServer).handleConf props C10 C05
 //@   arith int
 //@   requires P.st == 1
+//@   requires conf != nil ==> conf_ok(conf.Conf)
 //@   ensures result == nil ==> P.st == 0 || P.st == 9
+//@   ensures @C05 result == nil && conf != nil ==> M.pivoted && M.detached && M.root_ro && M.pivot_new == conf.Conf.ContainerRoot
+// the init command, which may be anything the host configured, runs only inside the sealed root
+//@ func container.initContainer props C05
+//@   arith int
+//@   requires conf_ok(c)
+//@   ensures @C05 result == nil ==> M.pivoted && M.pivot_new == c.ContainerRoot && M.detached && M.root_ro
+//@   callsite (*Cmd).CombinedOutput: assert @C05 M.pivoted && M.detached && M.root_ro
 
 //@ func container.(*containerServer).handleDelete props C10 C14
 //@   arith int
@@ -420,10 +435,22 @@ package container
 //@   loop 2: invariant -1 <= rangeindex && rangeindex < len(c.MaskPaths) && M.pivoted && M.detached && M.pivot_new == c.ContainerRoot && 0 <= M.nm && M.nm <= 2 + len(c.Mounts) + rangeindex
 
 // ---- C16: the container init is armed to die with the process that started it ----
-//@ func container.(*Builder).startContainer props C16
+//@ func container.(*Builder).startContainer props C16 C12
 //@   arith int
 //@   requires b != nil
+//@   assigns PR.started, FD.closed, FD.cloexec, FC.closed
 //@   callsite Start: assert @C16 c.SysProcAttr != nil && int(c.SysProcAttr.Pdeathsig) == 9
+//@   ensures result.1 == nil ==> result.0 != nil && result.0.socket != nil && result.0.socket.Socket != nil && result.0.socket.Socket.UnixConn != nil && result.0.process != nil
+//@   ensures @C12 result.1 == nil ==> !old(PR.started)[result.0.process] && PR.started == old(PR.started)[result.0.process := true]
+//@   ensures @C12 result.1 != nil ==> PR.started == old(PR.started)
+
+// ---- host Build (C12): when building the environment fails after the container init has been started,
+// that init is killed and reaped before the error is returned - no process is left behind ----
+//@ func container.(*Builder).Build props C12
+//@   arith int
+//@   requires b != nil && H.st == 0
+//@   assigns H.st, H.batch, H.fds, PR.started, PR.killed, PR.waited, FD.closed, FD.cloexec, FC.closed
+//@   ensures @C12 result.1 != nil ==> forall p *os.Process :: PR.started[p] && !old(PR.started)[p] ==> PR.killed[p] && PR.waited[p]
 //@ func container.newPassCredSocketPair props C16
 //@   arith int
 //@   assigns FD.closed, FD.cloexec, FC.closed
@@ -431,10 +458,10 @@ package container
 //@ func container.(*Builder).getIDMapping
 //@   trusted "builds the uid/gid mapping tables (plain data)"
 //@   pure
-//@ func container.newSocket
-//@   trusted "wraps the unix socket with gob encoder/decoder state"
-//@   pure
-//@   ensures result != nil && fresh(result)
+//@ func container.newSocket props C19
+//@   arith int
+//@   assigns nothing
+//@   ensures result != nil && fresh(result) && result.Socket == s && result.encoder != nil && result.decoder != nil && len(result.buff) == 32768
 //@ func iface:container.CredGenerator.Get
 //@   assumed "user-supplied credential generator"
 //@   pure
